@@ -477,6 +477,13 @@ func TestVerifHarnessC02(t *testing.T) {
 		budget = 230 * time.Second
 	}
 	r := c02NewRunner(t, budget)
+	// watchdog per job: generous in thorough mode, 30 s in quick mode (a hang is a violation either way)
+	jt := func(sec int) time.Duration {
+		if !thorough {
+			return 30 * time.Second
+		}
+		return time.Duration(sec) * time.Second
+	}
 	boundText := ""
 	defer func() { r.writeStats(boundText, false) }()
 	rng := rand.New(rand.NewSource(seed))
@@ -495,7 +502,7 @@ func TestVerifHarnessC02(t *testing.T) {
 		plans = append(plans, &c02Plan{ds: d, mkQueries: tinyQ})
 	}
 	boundText = fmt.Sprintf("bound=%s seed=%d; all row sequences of length<=%d over 9 row types (cols a,b; values 1,2; empty row) + %d random of length<=10, x (12+%d) exprs x (all 31 lists over {a,b} of length 0..4 + 12 of length 5,6 + 6 lists with unknown column z) x 3 writers x 2 open modes", bound, seed, L, nRand, nExprRandom)
-	if v := r.run("tiny", c02Jobs(plans, false), 60*time.Second); v != nil {
+	if v := r.run("tiny", c02Jobs(plans, false), jt(60)); v != nil {
 		c02Report(t, "C02", v)
 	}
 
@@ -516,7 +523,7 @@ func TestVerifHarnessC02(t *testing.T) {
 		}
 	}
 	boundText += fmt.Sprintf("; 'wide' (6 columns) and 'strings' datasets n in %v x %d seeds, %d exprs x up to %d lists (singletons, pairs, all columns, random length 0..6 with repeats/unknown)", ns, reps, nExpr, nLists)
-	if v := r.run("wide+strings", c02Jobs(plans, false), 90*time.Second); v != nil {
+	if v := r.run("wide+strings", c02Jobs(plans, false), jt(90)); v != nil {
 		c02Report(t, "C02", v)
 	}
 
@@ -531,7 +538,7 @@ func TestVerifHarnessC02(t *testing.T) {
 		plans = append(plans, &c02Plan{ds: &c02Dataset{Gen: &g}, mkQueries: c02GenQueries(seed+int64(n), 4, 40, 3e5)})
 	}
 	boundText += fmt.Sprintf("; 'mix' datasets n in %v (unique id column when n<=4100)", sizes)
-	if v := r.run("boundaries", c02Jobs(plans, true), 120*time.Second); v != nil {
+	if v := r.run("boundaries", c02Jobs(plans, true), jt(120)); v != nil {
 		c02Report(t, "C02", v)
 	}
 
@@ -546,7 +553,7 @@ func TestVerifHarnessC02(t *testing.T) {
 		plans = append(plans, &c02Plan{ds: &c02Dataset{Gen: &g}, mkQueries: c02GenQueries(seed+int64(n), 3, 30, 3e5)})
 	}
 	boundText += fmt.Sprintf("; large 'mix' datasets n in %v", big)
-	if v := r.run("large", c02Jobs(plans, true), 200*time.Second); v != nil {
+	if v := r.run("large", c02Jobs(plans, true), jt(200)); v != nil {
 		c02Report(t, "C02", v)
 	}
 }
